@@ -1,6 +1,7 @@
 import Robust.Irc.Proofs.H2Base
 /-! MODE -/
 namespace Robust.Irc
+open Rd
 open AMap
 
 /-! ### bans -/
@@ -185,7 +186,7 @@ theorem cmdMode_inert {c c' : Ctx} {sid : Id} {m : IrcMsg} (hw : WInvCore c.st)
         · cases hr; inert_tac
         · obtain ⟨c1, h1, hr⟩ := Res.bind_eq_ok.1 hr
           cases hr
-          exact ((Inert.refl hw).modS hw h1 (fun _ => ⟨rfl, rfl, rfl, rfl⟩) (fun _ => rfl)).emit _ _
+          exact ((Inert.refl hw).modS hw h1 (fun _ => ⟨rfl, rfl, rfl, rfl⟩) (fun _ => ⟨rfl, rfl⟩)).emit _ _
     · cases hr; inert_tac
 
 theorem cmdMode_preserves : Preserves cmdMode := Preserves.of_inert fun _ _ _ _ => cmdMode_inert
